@@ -1,4 +1,4 @@
-import Logrange.Proofs.Truncate
+import Logrange.Proofs.TruncateDry
 import Logrange.Generated.C09
 /-!
 # C09 — Truncation removes only whole oldest chunks, within the requested bounds
@@ -209,31 +209,8 @@ theorem drop_only_if_empty_and_unused (p : Params) (part : Part) (h : (phase1Par
 same entry for the sorted list (bytes, chunk count, deleted flag). -/
 theorem dryrun_equals_run_phase1 (p : Params) (part : Part) (hu : part.users = 0) (hs : Ascending part.chunks) :
     (phase1Part strict { p with dryRun := true } part).report = (phase1Part strict { p with dryRun := false } part).report ∧
-    (phase1Part strict { p with dryRun := true } part).info = (phase1Part strict { p with dryRun := false } part).info := by
-  have hch : ∀ b, choose strict { p with dryRun := b } part.chunks = choose strict p part.chunks := by
-    intro b; rfl
-  have hn : ∀ b, (truncate strict { p with dryRun := b } part.chunks).n = (choose strict p part.chunks).n := by
-    intro b; rw [truncate_n _ _ _ hs, hch]
-  have hr : ∀ b, (truncate strict { p with dryRun := b } part.chunks).removed =
-      psize (part.chunks.take (choose strict p part.chunks).n) := by
-    intro b; rw [truncate_removed, hch]
-  unfold phase1Part
-  by_cases hsel : part.sel = false
-  · simp [hsel]
-  · simp only [hsel, if_false]
-    by_cases hz : psize part.chunks = 0
-    · simp [hz, canDelete, hu]
-    · simp only [hz, if_false, hn, hr]
-      refine ⟨rfl, ?_⟩
-      by_cases hall : psize (part.chunks.take (choose strict p part.chunks).n) = psize part.chunks
-      · simp only [hall, if_true, Bool.true_or, Bool.false_or]
-        have hck : (truncate strict { p with dryRun := false } part.chunks).chunks =
-            part.chunks.drop (choose strict p part.chunks).n := by
-          rw [truncate_chunks _ _ _ hs, hch]; simp
-        have hd0 : psize (part.chunks.drop (choose strict p part.chunks).n) = 0 := by
-          have := psize_take_add_drop part.chunks (choose strict p part.chunks).n; omega
-        simp [hck, canDelete, hu, hd0]
-      · simp [hall]
+    (phase1Part strict { p with dryRun := true } part).info = (phase1Part strict { p with dryRun := false } part).info :=
+  phase1Part_dry_eq_run strict p part hu hs
 
 /-! ## DRYRUN and the MAXDBSIZE pass -/
 
@@ -256,16 +233,69 @@ theorem dryrun_chunk_count_agrees (ti : Info) (cks : List Chunk) (h : ti.chunksD
     (takenInfo true ti cks).chunksDeleted = cks.length :=
   ⟨takenInfo_dry_eq_run ti cks h, by simp [takenInfo]; omega⟩
 
-/-- The property's DRYRUN clause at full strength for the whole command: for any two visiting orders of the same
-partitions (the dry run and the run are two calls, Go's map order differs between them), nobody else using them,
-distinct source ids, ascending chunk ids, no chunk below two bytes, the dry run's reports are the run's. Since the
-three repairs (49b0b2b, cac5c5d, b1a5e66) no counterexample is known; the statement is kept here, proved in its parts
-(`dryrun_equals_run_phase1`, `dryrun_chunk_count_agrees`, `global_truncate_empties_partition`, `tie_break_total`)
-and tested as a whole by the harness on every system case. -/
-def dryrun_equals_run_full : Prop :=
-  ∀ (p : Params) (o1 o2 : List Part), o1.Perm o2 → (o1.map (·.src)).Nodup →
-    (∀ q ∈ o1, q.users = 0 ∧ Ascending q.chunks ∧ ∀ c ∈ q.chunks, 2 ≤ c.size) →
-    ∀ r, r ∈ (runNow { p with dryRun := true } o1).reports ↔ r ∈ (runNow { p with dryRun := false } o2).reports
+/-- **`sortedInfos` is sorted and is the same list for every visiting order** (`insert_perm_invariant` lifted to
+phase I): by latest timestamp descending, equal timestamps by source id ascending — Go's map order cannot show. -/
+theorem sortedInfos_order_invariant (p : Params) (o1 o2 : List Part) (hp : o1.Perm o2) (hnd : (o1.map (·.src)).Nodup) :
+    (phase1 strict p o1).infos = (phase1 strict p o2).infos ∧ SortedInfos (phase1 strict p o1).infos := by
+  rw [phase1_eq, phase1_eq]
+  have hndI : ((o1.filterMap (fun q => (phase1Part strict p q).info)).map (·.src)).Nodup :=
+    nodup_filterMap_map _ _ (·.src) (fun x y h => p1_info_src strict _ x y h) o1 hnd
+  obtain ⟨h1, h2, _⟩ := insert_perm_invariant _ _ (hp.filterMap (fun q => (phase1Part strict p q).info)) hndI
+  exact ⟨h1, h2⟩
+
+/-- the order-independence of the sorted insertion itself: the same entries (distinct source ids) inserted in any two
+orders give the same, sorted, list -/
+theorem insert_perm_invariant (l1 l2 : List Info) (hp : l1.Perm l2) (hnd : (l1.map (·.src)).Nodup) :
+    sortInfos l1 = sortInfos l2 ∧ SortedInfos (sortInfos l1) ∧ (sortInfos l1).Perm l1 :=
+  Logrange.Truncate.insert_perm_invariant l1 l2 hp hnd
+
+/-- **DRYRUN announces exactly what the run does — the whole command, MAXDBSIZE pass included.** For every layout,
+every parameter combination and every visiting order of the two calls (`o1`: the dry run's walk over the tag index,
+`o2`: the run's — two independent walks over a Go map), with nobody else using the partitions
+(`users = 0`: `noConcurrentUsers`), distinct source ids, ascending chunk ids, and partitions that are empty or have no
+chunk below two bytes (`WellSized`; a stored record takes at least 14): every report line of the dry run (partition,
+size before and after, chunk count, deleted flag) is a report line of the run and vice versa. No tie hypothesis, no
+double-count hypothesis (repairs cac5c5d, 49b0b2b). Together with `dryrun_changes_nothing` this is the property's
+DRYRUN clause. -/
+theorem dryrun_equals_run_full (p : Params) (o1 o2 : List Part) (hp : o1.Perm o2) (hnd : (o1.map (·.src)).Nodup)
+    (hq : ∀ q ∈ o1, q.users = 0 ∧ Ascending q.chunks ∧ WellSized q) :
+    (∀ r, r ∈ (runNow { p with dryRun := true } o1).reports ↔ r ∈ (runNow { p with dryRun := false } o2).reports) ∧
+    (runNow { p with dryRun := true } o1).db = o1 := by
+  have h1 : gMin = 0 := by decide
+  have h2 : gMax = 1 := by decide
+  refine ⟨?_, dryrun_changes_nothing _ rfl o1⟩
+  rw [h1, h2]
+  exact dryrun_equals_run strict p o1 o2 hp hnd hq
+
+/-- **The MAXDBSIZE pass takes the front of the latest-timestamp order and stops as soon as the total fits**
+(stated on the dry run, whose reports are the run's by `dryrun_equals_run_full`): the list the pass walks is sorted
+(`SortedInfos`: latest timestamp descending, ties by source id); the pass visits exactly its first
+`passLen MaxDBSize infos total` entries — `passLen` counts entries while the running total exceeds MAXDBSIZE —, every
+visited entry leaves with nothing left (`after = 0`: its partition is taken whole, or was already emptied by phase I),
+and every entry behind them is untouched. -/
+theorem global_pass_front (p : Params) (hd : p.dryRun = true) (order : List Part) (hnd : (order.map (·.src)).Nodup) :
+    let I := (phase1 strict p order).infos
+    let res := (globalLoop strict gMin gMax p I (totalAfter I) (phase1 strict p order).db).1
+    let k := passLen p.maxDB I (totalAfter I)
+    SortedInfos I ∧ (∀ x ∈ res.take k, x.after = 0) ∧ res.drop k = I.drop k := by
+  intro I res k
+  refine ⟨(sortedInfos_order_invariant p order order (List.Perm.refl _) hnd).2, ?_⟩
+  apply globalLoop_dry_front strict gMin gMax p hd
+  -- every candidate's partition is still there: a dry phase I drops nothing
+  intro ti hti _
+  have hdb : (phase1 strict p order).db = order := by
+    unfold phase1; rw [phase1_foldl_db_dry strict p hd]; rfl
+  rw [hdb]
+  have hI : I = sortInfos (order.filterMap (fun q => (phase1Part strict p q).info)) := by
+    show (phase1 strict p order).infos = _
+    rw [phase1_eq]
+  have hndI : ((order.filterMap (fun q => (phase1Part strict p q).info)).map (·.src)).Nodup :=
+    nodup_filterMap_map _ _ (·.src) (fun x y h => p1_info_src strict _ x y h) order hnd
+  obtain ⟨_, _, hperm⟩ := Logrange.Truncate.insert_perm_invariant _ _ (List.Perm.refl _) hndI
+  rw [hI] at hti
+  obtain ⟨q, hq, hqi⟩ := List.mem_filterMap.mp (hperm.mem_iff.mp hti)
+  rw [p1_info_src strict p q ti hqi, dbFind_of_mem order hnd q hq]
+  rfl
 
 def c (id size : Nat) (ts : Int) : Chunk := ⟨id, size, ts⟩
 
@@ -363,6 +393,20 @@ example : (chooseNow { minSrc := 300, oldestTs := 100 } lay).n = 1 := by decide
 example : (runNow { dryRun := true, maxDB := 100 } [⟨1, true, 0, lay⟩]).reports.length = 1 := by decide
 /-- the global pass idles when the total fits -/
 example : totalAfter (phase1 strict { maxSrc := 400 } [⟨1, true, 0, lay⟩]).infos ≤ ({ maxSrc := 400 } : Params).maxDB := by decide
+/-- the hypotheses of `dryrun_equals_run_full` are met by two visiting orders of two partitions whose newest events tie,
+with the MAXDBSIZE pass active (total 150 > 100) -/
+example : ([⟨1, true, 0, [c 1 60 20]⟩, ⟨2, true, 0, [c 1 60 19, c 2 30 20]⟩] : List Part).Perm
+      [⟨2, true, 0, [c 1 60 19, c 2 30 20]⟩, ⟨1, true, 0, [c 1 60 20]⟩] ∧
+    (([⟨1, true, 0, [c 1 60 20]⟩, ⟨2, true, 0, [c 1 60 19, c 2 30 20]⟩] : List Part).map (·.src)).Nodup ∧
+    (∀ q ∈ ([⟨1, true, 0, [c 1 60 20]⟩, ⟨2, true, 0, [c 1 60 19, c 2 30 20]⟩] : List Part),
+      q.users = 0 ∧ Ascending q.chunks ∧ WellSized q) ∧
+    (runNow { dryRun := true, maxDB := 100 } [⟨1, true, 0, [c 1 60 20]⟩, ⟨2, true, 0, [c 1 60 19, c 2 30 20]⟩]).reports.map (·.src) = [1] := by
+  refine ⟨List.Perm.swap _ _ _, by decide, ?_, by decide⟩
+  intro q hq
+  simp only [List.mem_cons, List.not_mem_nil, or_false] at hq
+  rcases hq with rfl | rfl
+  · exact ⟨rfl, by simp [Ascending], Or.inr (by simp [c])⟩
+  · exact ⟨rfl, by simp [Ascending, c], Or.inr (by simp [c])⟩
 /-- an empty, unused partition is dropped; a used one is not -/
 example : (phase1Part strict {} ⟨1, true, 0, []⟩).part = none ∧ (phase1Part strict {} ⟨1, true, 1, []⟩).part = some ⟨1, true, 1, []⟩ := by
   decide
